@@ -318,6 +318,7 @@ def _lens(ctx, salt, k, planned=False, **kw):
     rng = random.Random(ctx.seed * 7919 + salt * 101 + k)
     if planned:
         kw['lens_class'], kw['field_class'] = _classes(k)
+        kw['clip'] = bool((k + salt) % 2)          # every other lens carries an aperture that clips the edge of the beam
     spec = C.c12_spec(rng, **kw)
     try:
         o = C.build(spec)
